@@ -49,7 +49,7 @@ CLAIMS = {
     text=("Decides, on control-flow graphs with exception edges (any call may raise): (R2) no except clause of the package that catches a generic I/O or database error around a mutating effect continues normally (table of allowed narrow idioms); (R2p) closed table of the sites that swallow PermissionError or a whole OSError; "
           "(R3) the C05 commit/unlink/publish/repack guards also hold along handler, finally and with-exit paths, no index row is staged or tracked for an object whose processing was interrupted by a swallowed exception, and offset/length of every staged row are taken from the handle after any interrupted write (range machine on the exception graph); "
           "(R4) HashWriterWrapper.write checks the stream position before writing and updates hash/position only after it. Does NOT decide the behaviour of real calls under injected faults nor that a rerun succeeds."),
-    note="Fault model: one call raises OSError/OperationalError; PermissionError (Windows locking) handlers only checked by R3; stale lock files / sandbox litter tolerated by the property. Also hosts the rule module of C13 (after a failed append the next append must start at the real end of the pack).",
+    note="Fault model: one call raises OSError/OperationalError; PermissionError (Windows locking) handlers only checked by R3; stale lock files / sandbox litter tolerated by the property. Also hosts the rule modules of C13 (after a failed append the next append must start at the real end of the pack) and C05 (what a failed operation left pending must never be taken for committed by the next one).",
     technique="static typestate analysis on exception-edge CFGs + error-discipline table over all except clauses", ref="5/C17"),
  'C09': dict(
     text=("Decides the structural clauses of deduplication: (R1) ObjectWriter: the loose destination is a function of the key only; on every return path an existing copy was verified (checksum equal / vanished) or replaced, an absent destination was published; "
